@@ -89,6 +89,20 @@ def handle (ws : List String) : String :=
       match unhex hx >>= Sexp.parse with
       | some s => runInline s
       | none => "err bad-sexp"
+  | ["cellsplit", hx] =>
+      -- cellcard.split on the one-line content of a cell card
+      (match unhex hx with
+       | some t =>
+           (match CC.splitCell t.toList with
+            | .ok p => s!"ok ={hex (String.ofList p.name)} ={hex (String.ofList p.mat)} ={hex (String.ofList p.geom)} ={hex (String.ofList p.opts)}"
+            | .error .tooFew => "ok error tooFew"
+            | .error .notFloat => "ok error notFloat"
+            | .error .noMatch => "ok error noMatch")
+       | none => "err bad-hex")
+  | ["geomcomp", hx] =>
+      match unhex hx >>= Sexp.parse with
+      | some s => runGeomComp s
+      | none => "err bad-sexp"
   | ["pottransform", hx] =>
       match unhex hx >>= Sexp.parse with
       | some s => runPotTransform s
@@ -162,21 +176,24 @@ def handle (ws : List String) : String :=
            | none => "ok none"
        | _, _ => "err bad-number")
   | "fillmodel" :: items =>
-      -- items: id:univ:fill(-|n):mathex:rhohex in deck order -> leaves of every filled level-0 cell
+      -- items: id:univ:fill(-|n):mathex:rhohex:filltr(-|token):trcl(-|token,token…) in deck order -> leaves of every filled level-0 cell
       (let cells := items.filterMap fun it =>
          match it.splitOn ":" with
-         | [i, u, f, m, r] => do
+         | [i, u, f, m, r, ft, tc] => do
              let id ← i.toNat?; let un ← u.toNat?
              let fill ← if f == "-" then some none else f.toNat?.map some
              let mat ← unhex m; let rho ← unhex r
-             pure ({ id := id, univ := un, fill := fill, mat := mat, rho := rho } : FCell)
+             let filltr ← if ft == "-" then some none else ft.toNat?.map some
+             let trcl ← if tc == "-" then some [] else (tc.splitOn ",").mapM String.toNat?
+             pure ({ id := id, univ := un, fill := fill, mat := mat, rho := rho, filltr := filltr, trcl := trcl } : FCell)
          | _ => none
        if cells.length != items.length then "err bad-item" else
        let tops := cells.filter fun c => c.univ == 0 && c.fill.isSome
        match tops.mapM (fillCells cells (cells.length + 2)) with
        | none => "ok none"
        | some lss => "ok " ++ " ".intercalate (lss.flatten.map fun l =>
-           s!"{l.base};" ++ ",".intercalate (l.origin.map fun (a, b) => s!"{a}-{b}") ++ s!";{hex l.mat};{hex l.rho}"))
+           s!"{l.base};" ++ ",".intercalate (l.origin.map fun (a, b) => s!"{a}-{b}") ++ s!";{hex l.mat};{hex l.rho};"
+             ++ ",".intercalate (l.moves.map toString)))
   | "volline" :: fict :: op :: rest =>
       -- volline <0|1> <op|-> p.. / m.. / ids..    ->  VolumeT4.__str__
       (let groups := (" ".intercalate rest).splitOn "/"
